@@ -144,6 +144,7 @@ type c19Flow struct {
 	set         int
 	rulesChange bool // a reload changed the rule set since the flow was last known to be tracked
 	wrapped     bool // N is in the set only/also because of a rulesVersion wrap
+	reloads     int  // firewall-building reloads since the flow last passed
 }
 
 type c19Stat struct {
@@ -373,6 +374,7 @@ func (w *c19World) afterEffectiveReload(rulesChanged bool) {
 		w.st.wrapSeen++
 	}
 	for t, f := range w.flows {
+		f.reloads++
 		if rulesChanged {
 			f.rulesChange = true
 		}
@@ -506,7 +508,7 @@ func (w *c19World) packet(i int) {
 			if !ruleNow {
 				if f.rulesChange {
 					st.mustPassAfterChange++
-				} else if w.ver != 0 || w.jumped {
+				} else if f.reloads > 0 {
 					st.mustPassAfterNoChange++
 				}
 			}
@@ -524,7 +526,7 @@ func (w *c19World) packet(i int) {
 		f.wrapped = false
 	}
 	if pass {
-		f.rulesChange = false // validated (or created) under the current rules
+		f.rulesChange, f.reloads = false, 0 // validated (or created) under the current rules
 	}
 }
 
@@ -642,7 +644,7 @@ func (w *c19World) key() string {
 		if f.set == c19N && !f.rulesChange {
 			continue
 		}
-		rs = append(rs, fmt.Sprintf("%s=%s/%v/%v", names[p], c19SetString(f.set), f.rulesChange, f.wrapped))
+		rs = append(rs, fmt.Sprintf("%s=%s/%v/%v/%v", names[p], c19SetString(f.set), f.rulesChange, f.wrapped, f.reloads > 0))
 	}
 	sort.Strings(rs)
 	sb.WriteString("|ref=" + strings.Join(rs, ","))
@@ -655,6 +657,7 @@ func TestVerifC19(t *testing.T) {
 
 	c.Assume("observation point is Firewall.Drop of the node's current firewall (f.firewall) after each reload; reloads go through config.C.ReloadConfigString and the registered callbacks of a goroutine-free real node; peers are hand-built HostInfos with real certificates of the node's CA (no handshake in the loop)")
 	c.Assume("rule sets: R0 allow out tcp/80, R1 allow in tcp/80, R2 both, R3 none, (thorough) R4 allow out tcp/80 for group g1; all host any / local_cidr any; initial state R2, rulesVersion 0, empty table")
+	c.Assume("a flow is forgotten at the latest when one of its packets is evaluated while the current rules deny its original direction (the statement's 'otherwise the flow is forgotten'); it must then not come back without a new allowed packet")
 	c.Assume("lazy and eager forgetting are both accepted: a flow whose original direction some intermediate rule set denied may or may not survive until rules allow it again (weak reading of 'otherwise the flow is forgotten')")
 	c.Assume("a rulesVersion wrap (65535 -> 0) may forget any flow, even one the rules still allow and even when the reload changed nothing about the rules (DESIGN ◊: forgetting more than necessary on wrap is tolerated; counted in wrap_forgot_still_allowed_flows); honouring a flow the rules no longer allow is never tolerated")
 	c.Assume("far-away start states: rulesVersion 65534 / 65535 are written into the private field once per history (equivalent to that many no-traffic reloads that changed nothing about the rules); the clock does not advance (idle expiry is C18's subject)")
